@@ -3389,7 +3389,8 @@ func (e *bincEncDriverBytes) EncodeString(v string) {
 func (e *bincEncDriverBytes) EncodeStringNoEscape4Json(v string) { e.EncodeString(v) }
 
 func (e *bincEncDriverBytes) EncodeStringEnc(c charEncoding, v string) {
-	if e.e.c == containerMapKey && c == cUTF8 && (e.h.AsSymbols == 1) {
+
+	if e.e.c == containerMapKey && c == cUTF8 && (e.h.AsSymbols == 1) && !e.e.side {
 		e.EncodeSymbol(v)
 		return
 	}
@@ -7524,7 +7525,8 @@ func (e *bincEncDriverIO) EncodeString(v string) {
 func (e *bincEncDriverIO) EncodeStringNoEscape4Json(v string) { e.EncodeString(v) }
 
 func (e *bincEncDriverIO) EncodeStringEnc(c charEncoding, v string) {
-	if e.e.c == containerMapKey && c == cUTF8 && (e.h.AsSymbols == 1) {
+
+	if e.e.c == containerMapKey && c == cUTF8 && (e.h.AsSymbols == 1) && !e.e.side {
 		e.EncodeSymbol(v)
 		return
 	}
